@@ -309,7 +309,7 @@ def worker(job):
     try:
         scripts = list(corpus) + [gen_script(r) for _ in range(n)]
         for k, sc in enumerate(scripts):
-            end = 'DONE' if k % 4 else r.choice(['done', 'DONE', 'junk', 'DONE x', ''])
+            end = 'DONE' if k % 4 else r.choice(['done', 'DONE', 'DoNe', 'junk', 'DONE x', '', 'DONE ', 'DONE\t', 'done \t ', 'DONE\x0b', 'DONE\r', ' DONE', 'DONEDONE', 'DONE\x00'])
             if end == '':
                 end = 'x'
             race = None
